@@ -130,6 +130,42 @@ func init() {
 		x, y := bitboard.BitCoords(&c, b&-b) // lowest set bit (callers pass single bits); 0 panics -> "panic"
 		return fmt.Sprintf("tz=%d pop=%d xy=%d,%d", bitboard.TrailingZeros(b), bitboard.Popcount(b), x, y)
 	}
+	// movepre2: a move into caller-supplied storage that has just been through a REJECTED move (the error paths of
+	// MovePreallocated return after copying and, for slides, after changing squares along the way) and, before that,
+	// through another position.  Required: exactly what `move` gives for the good move.
+	opTable["movepre2"] = func(s *Session, a []string) string {
+		p := decPos(a[0])
+		buf := tak.Alloc(p.Size())
+		if d := decPos(a[3]); d.Size() == p.Size() {
+			d.MovePreallocated(tak.Move{Type: tak.Pass}, buf)
+		}
+		if _, err := p.MovePreallocated(decMove(a[1]), buf); err == nil {
+			// not rejected after all: still a legitimate earlier use of the buffer
+		}
+		n, err := p.MovePreallocated(decMove(a[2]), buf)
+		if err != nil {
+			return "err"
+		}
+		return "ok " + dumpPos(n)
+	}
+	// overstack: the game-end verdict of a position that lives in a search-stack frame whose parent's frame has been
+	// reused: p --m1--> A (frame 1) --m2--> B (frame 2), then a sibling of A is generated into frame 1
+	opTable["overstack"] = func(s *Session, a []string) string {
+		p := decPos(a[0])
+		f1, f2 := tak.Alloc(p.Size()), tak.Alloc(p.Size())
+		A, err := p.MovePreallocated(decMove(a[1]), f1)
+		if err != nil {
+			return "err"
+		}
+		B, err := A.MovePreallocated(decMove(a[2]), f2)
+		if err != nil {
+			return "err"
+		}
+		if _, err := p.MovePreallocated(decMove(a[3]), f1); err != nil {
+			p.MovePreallocated(tak.Move{Type: tak.Pass}, f1)
+		}
+		return fmtOutcome(B) + " " + accStr(B)
+	}
 	// evalmm: the exported method MinimaxAI.Evaluate on ONE engine per board size that is kept for the whole run (default
 	// configuration, transposition table on), so that whatever the engine remembers between calls meets positions of
 	// other games, other piece counts and other tie-break settings
